@@ -27,6 +27,9 @@ MONOTONE = {
     "DT_YWD": ("dt_ywd_t", ["y", "c", "w"]),
     "DT_YD": ("dt_yd_t", ["y", "d"]),
     "DT_DAISY": (None, None),     # scalar day count
+    "DT_LDN": (None, None),       # scalar day count (Lilian)
+    "DT_MDN": (None, None),       # scalar day count (Matlab)
+    "DT_UMMULQURA": ("dt_ummulqura_t", ["y", "m", "d"]),
 }
 
 
